@@ -412,7 +412,7 @@ func fixUnusedImports(dir, pkg string) *stageFailure {
 func (t *tools) validate(b *batch) *stageFailure {
 	r := runCmd(b.dir, 10*time.Minute, nil, "go", "build", "-gcflags=-e", "./s", "./r")
 	if r.code == 0 && b.hasTestFiles() {
-		r = runCmd(b.dir, 10*time.Minute, nil, "go", "test", "-count=1", "-run", "^$", "./s", "./r")
+		r = runCmd(b.dir, 10*time.Minute, nil, "go", "test", "-vet=off", "-count=1", "-run", "^$", "./s", "./r")
 	}
 	if r.code != 0 {
 		return &stageFailure{Stage: "build-r", Diag: lastLines(r.out, 40), Timeout: r.timeout}
@@ -429,7 +429,7 @@ func (t *tools) buildPkgs(b *batch) *stageFailure {
 	for _, p := range pk {
 		r := runCmd(b.dir, 10*time.Minute, nil, "go", "build", "-gcflags=-e", p)
 		if r.code == 0 && b.hasTestFiles() {
-			r = runCmd(b.dir, 10*time.Minute, nil, "go", "test", "-count=1", "-run", "^$", p)
+			r = runCmd(b.dir, 10*time.Minute, nil, "go", "test", "-vet=off", "-count=1", "-run", "^$", p)
 		}
 		if r.code != 0 {
 			return &stageFailure{Stage: "build-" + strings.TrimPrefix(p, "./"), Diag: lastLines(r.out, 40), Timeout: r.timeout}
